@@ -20,7 +20,11 @@ TInit == MPInit /\ l = 1
 
 ReadRes == {"data", "eof", "zero", "pending", "reset"}
 
-TNext ==
+\* an event that names a connection the harness could not attribute (c = 0) is not evidence
+\* against the code (only an accepted stream nobody asked for is: see "accept")
+BadC == l <= Len(Rec) /\ "c" \in DOMAIN Rec[l] /\ Rec[l].c \notin Conns /\ Rec[l].ev # "accept"
+
+TBody ==
     \/ Is("reset") /\ P_MsgReset
     \/ Is("step") /\ P_Step
     \/ Is("quiet") /\ P_Quiet
@@ -45,6 +49,8 @@ TNext ==
     \/ Is("deliver") /\ Skip
     \/ Is("panic") /\ P_Flag("NoPanic")
     \/ Is("overdue") /\ P_Overdue(SetOf(E.cs))
+
+TNext == (BadC /\ l' = l + 1 /\ Skip) \/ (~BadC /\ TBody)
 
 TSpec == TInit /\ [][TNext]_<<mpvars, l>>
 
